@@ -19,7 +19,10 @@ def setupOfJson (j : Json) : Except String (Option Setup) := do
       | a => do pure (TdAction.callable (← jbool a "raises"))
     let b ← j.getObjVal? "beh"
     let beh ← match jopt b "until" with
-      | some u => do pure (Behaviour.untilStopped (← u.getNat?))
+      | some u => do
+        match joptNat b "excOnCancel" with
+        | some e => pure (Behaviour.failsWhenCancelled (← u.getNat?) e)
+        | none => pure (Behaviour.untilStopped (← u.getNat?))
       | none => do pure (Behaviour.endsAfter (← jnat b "ends") (joptNat b "exc"))
     pure (some (.start ⟨← jnat j "tid", action, beh⟩))
   | o => throw s!"bad setup op {o}"
